@@ -40,15 +40,26 @@ def _rate(rng, params, pos_states, any_states, bounded_only, time_dep=True):
 
 
 def gen_events(rng, limits="default", closed=False, min_states=1, max_states=5, min_events=1, max_events=5,
-               time_dep=True, csafe=False, max_mag=3, sym_mag=False, drift=False):
+               time_dep=True, csafe=False, max_mag=3, sym_mag=False, drift=False, range_style=True):
     """limits: 'default' (all (0,None) via plain names), 'mixed' (lower / upper / two-sided / absent per state)."""
     nS = rng.randint(max(min_states, 2 if closed else 1), max_states)
     nP = rng.randint(1, 4)
     states = rng.sample(G.CSAFE_STATES if csafe else G.STATE_POOL, nS)
     params = rng.sample(G.CSAFE_PARAMS if csafe else G.PARAM_POOL, nP)
+    # range-style declaration ('y1:4' unrolls into y1, y2, y3): 10 % of the models with >= 2 states; with limits='mixed' the one
+    # declared limit pair applies to the whole range
+    ranged = range_style and nS >= 2 and rng.random() < 0.1
+    if ranged:
+        states = ["y%d" % (i + 1) for i in range(nS)]
+    shared = None
+    if ranged and limits != "default":
+        lo = rng.choice([0, 0, 1])
+        shared = rng.choice([[0, None], [lo, lo + rng.randint(6, 40)]])
     lims = []
     for _ in states:
-        if limits == "default":
+        if shared is not None:
+            lims.append(list(shared))
+        elif limits == "default":
             lims.append([0, None])
         else:
             kind = rng.choice(["default", "default", "lower", "upper", "two", "absent"])
@@ -83,6 +94,8 @@ def gen_events(rng, limits="default", closed=False, min_states=1, max_states=5, 
         bounded_only = grows and not all(lims[states.index(t[2])][1] is not None for t in trs if t[0] == "B")
         events.append({"rate": _rate(rng, params, pos, states, bounded_only, time_dep), "trans": trs})
     decl = "limits" if limits != "default" else rng.choice(["list", "list", "string-comma", "limits"])
+    if ranged:
+        decl = "range" if shared is None or shared == [0, None] and rng.random() < 0.5 else "range-limits"
     odes = []
     if drift:
         # explicit ODE terms beside the events (tau-leap adds them as f*tau to the proposal): decay, constant in-/outflow
